@@ -14,11 +14,11 @@ Proof.
 Qed.
 
 (* [fs'] keeps everything [fs] holds, node for node (file contents included) *)
-Definition extends (fs fs' : fsmap) : Prop :=
+Definition extends (fs fs' : fstree) : Prop :=
   forall q k, lookup fs q = Some k -> lookup fs' q = Some k.
 
 (* whatever [fs'] holds where [fs] held nothing is a directory *)
-Definition only_dirs_added (fs fs' : fsmap) : Prop :=
+Definition only_dirs_added (fs fs' : fstree) : Prop :=
   forall q k, lookup fs q = None -> lookup fs' q = Some k -> k = KDir.
 
 Lemma extends_refl fs : extends fs fs.
@@ -320,7 +320,7 @@ Proof. intros H. apply cpd_noop. eapply create_parent_dirs_creates; eauto. Qed.
 
 (* the cache of directories already handled changes nothing: the same result as calling
    create_dir_all for every output in turn *)
-Fixpoint cpd_plain (fs : fsmap) (cwd : path) (outs : list bytes) : fsres :=
+Fixpoint cpd_plain (fs : fstree) (cwd : path) (outs : list bytes) : fsres :=
   match outs with
   | [] => (None, fs)
   | o :: r => match lp_parent (path_new o) with
@@ -432,7 +432,7 @@ Qed.
 (* non-vacuity: a step with outputs in new, nested, shared and parent-relative directories *)
 
 Definition s (l : list nat) : bytes := map N.of_nat l.
-Definition ex_fs : fsmap := [ ([s [119]], KDir); ([s [119]; s [99]], KDir); ([s [102]], KFile (s [1;2])) ].
+Definition ex_fs : fstree := [ ([s [119]], KDir); ([s [119]; s [99]], KDir); ([s [102]], KFile (s [1;2])) ].
 Definition ex_cwd : path := [s [119]; s [99]].
 (* outputs  a/b/o1  a/b/o2  ../x/o3  top  *)
 Definition ex_outs : list bytes :=
